@@ -231,8 +231,8 @@ def classify(lines, stats, seen, samples):
     """count the kinds of case in a log (labels for the evidence; not a verdict)"""
     for text in lines:
         rec = json.loads(text)
-        if rec["k"] == "enc":
-            kind = "enc:" + rec["f"]["op"]
+        if rec["k"] in ("enc", "encx"):
+            kind = rec["k"] + ":" + rec["f"]["op"]
             nontrivial = True
         else:
             b = expand(rec["b"])
@@ -306,6 +306,18 @@ def check(prop, tier, seed, replay):
             if n != cnt["enc"]:
                 raise ToolError(f"debug replay logged {n} of {cnt['enc']} encode cases")
             logs.append((p, "debug", "tlc-cases"))
+            # frames the constructors accept but the layout cannot carry: Datagram hosts beyond the one-octet length field
+            ox = os.path.join(work, "oversize.ndjson")
+            with open(ox, "w") as f:
+                for hl in (256, 257, 300, 511, 512, 65536, 65536 + 7):
+                    for dl in (0, 1, 5):
+                        f.write(json.dumps(dict(k="encx", f=dict(op="dgram", id=[0, 0, 0, 1 + hl % 3], n=[0, 0, 0, 0], port=53 + dl, bt=0,
+                                                                   host=[[120, hl]], data=[[7, dl]] if dl else [])), separators=(",", ":")) + "\n")
+            for bd, prof in ((rel, "release"), (dbg, "debug")):
+                p = os.path.join(work, f"oversize_{prof}.ndjson")
+                if run_vec(bd, ["cases", ox, p]) != 21:
+                    raise ToolError("frame_vec did not log the 21 oversize cases")
+                logs.append((p, prof, "oversize"))
             p = os.path.join(work, "random_rel.ndjson")
             n = run_vec(rel, ["random", str(seed), str(T["random"]), p])
             if n < 2 * T["random"]:
